@@ -67,6 +67,7 @@ type Result struct {
 	Fuel     bool        `json:"fuel,omitempty"`
 	Steps    int         `json:"steps"`
 	StdinPos int64       `json:"stdinPos"`
+	Out2     string      `json:"out2,omitempty"`  // result of a pure helper (mode translit)
 	Crash    string      `json:"crash,omitempty"` // set by the pool, never by the worker
 }
 
@@ -262,6 +263,10 @@ func (w *workerState) runCase(c *Case) (res *Result) {
 		res.Steps = w.steps
 		res.StdinPos = w.inOff()
 	}()
+	if c.Mode == "translit" {
+		res.Out2 = utils.ConvertBanglaDigitsToASCII(c.Src)
+		return
+	}
 	sc := lexer.NewScanner([]rune(c.Src))
 	toks := sc.ScanTokens()
 	if c.Mode == "lex" || c.WantT {
